@@ -388,6 +388,36 @@ transaction side),
 C17j (every attempt had a transaction id of its own: a quarter of the flows-mode runs pin
 the id, every attempt carries the sequence's id).
 
+Eleventh wave (suffix k), 16 changes: 5 were caught as delivered (C01k, C04k, C09k, C19k,
+C20k), 11 were missed at first. What was changed:
+C18k (a response-side lock released too early: the C02 and C18S concurrent groups now run
+under simulated blocking with overlapping responses of several transactions and one late
+arrival; both report it),
+C05k (processor lists never had null or empty entries: two textual mutations add them),
+C11k (transaction ids were short and distinct in their first characters: long ids with a
+common prefix),
+C17k (a sequence id was always non-empty: the empty id is one of the ids now),
+C03k (every path segment was one `url.Parse` accepts: `50%` and `%zz` segments; the wider
+generator alarmed on the unchanged tree - query parameters of such a URL were lost, a genuine
+defect, fix `2a196b5`),
+C06k (priority groups were numbered from 1: a third of the prioritised runs number them
+from 0),
+C08k (configuration files sat in one directory: a file in a nested directory),
+C15k (no endpoint was declared known in advance: some are),
+C10k (a writer waiting between two read locks of the policy-mode queue: scenario C10L runs
+the strategy-based queue under simulated blocking and reports the deadlock),
+C12k (a store into a key whose expired entry's sleeper goroutine is still held: the sleeper
+can be held across the store now, its late refund must not touch the new entry),
+C02k (a response processor that fails, followed by the proxy reporting the same transaction
+as failed: needed an injected processor failure - hook `54b1a26`, fault `proc.execute` - and
+a flow with a response-side processor).
+In the re-record after this wave two older changes had dropped out of reach of the quick
+tier because the generators' choice sequences had shifted (C02e, C06d: both had been caught
+by one run in two thousand). Both states are placed on purpose now: C02 ends half of the
+runs with a schedulable GC by one last request that meets a GC pass over the emptied set and
+is abandoned; C06 profile 7 opens with the head of the queue timing out less than one tick
+before the window opens while two more requests wait behind it.
+
 ### 12.1 Reverting the repairs
 
 `tools/revert_all_fixes.py` reverts every `fix:` commit, one at a time, in a scratch worktree
